@@ -437,6 +437,10 @@ func (g *PGen) errForm(d int) *Node {
 }
 
 func (g *PGen) loadString(d int) *Node {
+	if g.r.Chance(1, 8) {
+		// a nested load of nothing
+		return Call("progn", Call("load-string", Str(PickStr(g.r, []string{"", "; nothing", "  "}))), g.E(d-1))
+	}
 	// the nested source sees only globals
 	saveV, saveL, saveG, saveP, saveF, saveM := g.vars, g.lvars, g.globs, g.CurPkg, g.funs, g.macros
 	g.vars, g.lvars = nil, nil
